@@ -447,6 +447,7 @@ func c20FpJSON(fp *firewall.ParsedPacket) map[string]any {
 
 // check evaluates one byte string: reference once, real parser in both directions, real walker once for IPv6.
 func (w *c20Worker) check(d []byte) {
+	d = d[:len(d):len(d)] // cap == len: a slice expression reaching past the packet panics instead of reading the backing array
 	ref := c20Reference(d)
 	w.fam[w.famCur]++
 	for _, incoming := range [2]bool{true, false} {
@@ -1386,7 +1387,7 @@ func TestVerifC20(t *testing.T) {
 	}
 
 	// ---- family 5: structured IPv6 chains --------------------------------------------------------------------------
-	fullLen := mc.Pick(c, 3, 4)
+	fullLen := mc.Pick(c, 3, 5)
 	maxLen := 10
 	chains := c20Chains(fullLen, maxLen)
 	uppers := c20Uppers(thorough)
